@@ -676,7 +676,7 @@ theorem statOf_bumpRun (st : List Stat) (i t : Nat) (x : Stat) (h : statOf st t 
       by_cases hi : a.id = i
       · have e2 : (a.id == i) = true := by simpa using hi
         have : t = i := by rw [← ha, hi]
-        simp [e2, e1, this]
+        simp [e2, this]
       · have e2 : (a.id == i) = false := by simpa using hi
         have : ¬ t = i := by rw [← ha]; exact hi
         simp [e2, e1, this]
@@ -703,7 +703,7 @@ theorem statOf_bumpLocked (st : List Stat) (i t : Nat) (x : Stat) (h : statOf st
       by_cases hi : a.id = i
       · have e2 : (a.id == i) = true := by simpa using hi
         have : t = i := by rw [← ha, hi]
-        simp [e2, e1, this]
+        simp [e2, this]
       · have e2 : (a.id == i) = false := by simpa using hi
         have : ¬ t = i := by rw [← ha]; exact hi
         simp [e2, e1, this]
@@ -725,9 +725,9 @@ theorem statOf_foldl_bumpRun (ks : List Nat) (st : List Stat) (t : Nat) (x : Sta
     simp only [List.foldl_cons]
     rw [ih _ _ (statOf_bumpRun st k t x h)]
     by_cases hk : t = k
-    · subst hk; simp [List.count_cons]; omega
+    · subst hk; simp; omega
     · have : ¬ k = t := fun e => hk e.symm
-      simp [hk, List.count_cons, this]
+      simp [hk, this]
 
 theorem statOf_foldl_bumpLocked (ks : List Nat) (st : List Stat) (t : Nat) (x : Stat) (h : statOf st t = some x) :
     statOf (ks.foldl bumpLocked st) t = some { x with locked := x.locked + ks.count t } := by
@@ -737,9 +737,9 @@ theorem statOf_foldl_bumpLocked (ks : List Nat) (st : List Stat) (t : Nat) (x : 
     simp only [List.foldl_cons]
     rw [ih _ _ (statOf_bumpLocked st k t x h)]
     by_cases hk : t = k
-    · subst hk; simp [List.count_cons]; omega
+    · subst hk; simp; omega
     · have : ¬ k = t := fun e => hk e.symm
-      simp [hk, List.count_cons, this]
+      simp [hk, this]
 
 theorem statOf_analyzeCycle (st : List Stat) (c : CycleProfile) (t : Nat) (x : Stat) (h : statOf st t = some x) :
     statOf (analyzeCycle st c) t =
